@@ -8,11 +8,11 @@ the order regenerated from the Go text (`Generated/Gen.lean`, lemmas in `Proofs/
 namespace Orbit.Order
 
 /-- `BaseStore.AddOperation` (`Store.addOp`, `Model/Writers.lean`, `Model/ViewRace.lean`): under the
-write mutex append to the log, raise the replication status right away (the entry is held from the
-append on, whatever fails afterwards: C19), read the cached `_localHeads` (what the log does not hold of
-them is kept: F33) and persist the entry as `_localHeads`; then refresh the
+write mutex read the cached `_localHeads` (what the log does not hold of them — BEFORE the append: F49 — is kept: F33),
+append to the log, raise the replication status right away (the entry is held from the
+append on, whatever fails afterwards: C19) and persist the entry as `_localHeads`; then refresh the
 view; only then emit the write event (C16: an event is never ahead of the state it announces; C17). -/
-def addOperation : List String := ["lock", "append", "status", "prevheads", "headput", "index", "emit"]
+def addOperation : List String := ["lock", "prevheads", "append", "status", "headput", "index", "emit"]
 
 /-- one cached head of `BaseStore.Load` (`Store.loadChecked`, `loadHead`, `missingFetch`, `goodFetch`): the
 log is fetched; an ended context or a head that did not come back ends the load with an error (F32);
